@@ -35,6 +35,10 @@ def items(ctx, un=gen.BODY_UN, bi=gen.BODY_BIN, n=None, depth=None, salt='items'
             out.append((ctxp, [('tel', w(a)), ('tel', w(na))]))
             out.append((ctxp, [('tel', w(na)), ('tel', w(a))]))
         out.append((ctxp, [('tel', ('or', ('prev', None, a), ('prev', None, na)))]))
+        # ... a formula and its weak / strong or dual sibling (two formulas that differ in one flag only), in both orders
+        for f, g in gen.sibling_pairs():
+            out.append((ctxp, [('tel', f), ('tel', g)]))
+            out.append((ctxp, [('tel', g), ('tel', f)]))
         # ... and the two nestings of a chain of one binary operator (two formulas that differ in the bracketing only)
         c = ('atom', 'c')
         ctxq = [{'part': 'always', 'head': ('choice', ['a', 'b', 'c']), 'body': []}]
